@@ -366,6 +366,133 @@ func bucketOf(sec bool, ctx ldcontext.Context, isExp bool, seed *int, ck, key st
 	return float64(v)
 }
 
+// wideCase: one list of the configuration blown up far beyond the sizes the other streams use (a
+// fast path that exists only above some size, a fixed-size scratch table, an index kept in a narrow
+// integer), with the element that decides the outcome placed first, last, or nowhere.
+func (g *gen) wideCase(id string) *EvalCase {
+	r := g.r
+	c := &EvalCase{ID: id, Kind: "eval", Opts: WOpts{Log: true, Rec: true}}
+	c.Store.Flags, c.Store.Segments = []WFlag{}, []WSegment{}
+	sc := g.sctx("user")
+	sc.Sec, sc.Legacy = nil, false
+	sc.Key = "the-key"
+	c.Ctx = WCtx{T: "single", C: &sc}
+	if r.chance(1, 4) {
+		c.Ctx = WCtx{T: "multi", Cs: []WSCtx{sc, g.sctx("org")}}
+	}
+	n := pick(r, []int{9, 17, 33, 65, 129, 257, 1025})
+	pos := pick(r, []int{0, n - 1, n / 2, -1}) // where the deciding element sits; -1 = absent
+	f := simpleFlag("wide", true, 0, 3)
+	f.Form = pick(r, []string{"pre", "plain", "json", "builder"})
+	keys := func() []string {
+		out := make([]string, n)
+		for i := range out {
+			out[i] = fmt.Sprintf("k%05d", i)
+		}
+		if pos >= 0 {
+			out[pos] = sc.Key
+		}
+		return out
+	}
+	switch r.intn(7) {
+	case 0: // clause values
+		vals := make([]JV, n)
+		for i := range vals {
+			switch r.intn(4) {
+			case 0:
+				vals[i] = jNum(float64(i))
+			case 1:
+				vals[i] = jBool(i%2 == 0)
+			default:
+				vals[i] = jStr(fmt.Sprintf("v%05d", i))
+			}
+		}
+		if r.chance(1, 5) {
+			vals[r.intn(n)] = jObj(KV{"not", jStr("primitive")}) // spoils the equality table
+		}
+		if pos >= 0 {
+			vals[pos] = jStr(sc.Key)
+		}
+		op := pick(r, []string{"in", "in", "startsWith", "matches", "contains"})
+		f.Rules = []WFlagRule{{ID: "wide-values", Clauses: []WClause{{Attr: mkRef("lit", "key"), Op: op, Vals: vals, Neg: r.chance(1, 5)}},
+			VR: WVR{V: ip(1), RO: WRollout{Vars: []WWV{}, By: mkRef("", "")}}}}
+	case 1: // target keys
+		f.Targets = []WTarget{{Vals: keys(), V: 1}}
+		if r.bool() {
+			f.CTargets = []WTarget{{CK: "org", Vals: []string{"nobody"}, V: 2}, {CK: "user", Vals: []string{}, V: 1}}
+		}
+	case 2: // many rules: the matching one far down (rule index beyond one digit / one byte)
+		for i := 0; i < n; i++ {
+			k := fmt.Sprintf("k%05d", i)
+			if i == pos {
+				k = sc.Key
+			}
+			f.Rules = append(f.Rules, WFlagRule{ID: fmt.Sprintf("r%d", i), Clauses: []WClause{{Attr: mkRef("lit", "key"), Op: "in", Vals: []JV{jStr(k)}}},
+				VR: WVR{V: ip(i % 3), RO: WRollout{Vars: []WWV{}, By: mkRef("", "")}}})
+		}
+	case 3: // many buckets
+		ro := WRollout{Vars: []WWV{}, By: mkRef("", "")}
+		rest := 100000
+		for i := 0; i < n; i++ {
+			w := rest / (n - i)
+			if i == n-1 {
+				w = rest
+			}
+			ro.Vars = append(ro.Vars, WWV{V: i % 3, W: w, U: r.chance(1, 9)})
+			rest -= w
+		}
+		if r.chance(1, 3) {
+			ro.Kind = "experiment"
+		}
+		f.FT = WVR{RO: ro}
+	case 4: // many variations, index far out
+		f.Vars = []JV{}
+		for i := 0; i < n; i++ {
+			f.Vars = append(f.Vars, jStr(fmt.Sprintf("var%d", i)))
+		}
+		idx := n - 1
+		if pos < 0 {
+			idx = n // one past the end
+		}
+		f.FT = WVR{V: ip(idx), RO: WRollout{Vars: []WWV{}, By: mkRef("", "")}}
+		f.Off = ip(n / 2)
+	case 5: // many prerequisites: the unmet one far down
+		lim := n
+		if lim > 65 {
+			lim = 65
+		}
+		for i := 0; i < lim; i++ {
+			pf := simpleFlag(fmt.Sprintf("p%04d", i), true, 1, 2)
+			if i == pos || (pos >= lim && i == lim-1) {
+				pf.FT = WVR{V: ip(0), RO: WRollout{Vars: []WWV{}, By: mkRef("", "")}}
+			}
+			c.Store.Flags = append(c.Store.Flags, pf)
+			f.Prereqs = append(f.Prereqs, WPrereq{pf.Key, 1})
+		}
+	default: // segment lists
+		s := simpleSegment("wide-seg")
+		s.Form = pick(r, []string{"pre", "plain", "json"})
+		switch r.intn(3) {
+		case 0:
+			s.Inc = keys()
+		case 1:
+			s.Exc = keys()
+			s.Rules = []WSegRule{{ID: "all", Clauses: []WClause{}, By: mkRef("", "")}}
+		default:
+			s.IncC = []WSegTarget{{CK: "org", Vals: keys()}}
+			if c.Ctx.T == "multi" {
+				c.Ctx.Cs[1].Key = sc.Key
+			}
+		}
+		c.Store.Segments = []WSegment{s}
+		f.Rules = []WFlagRule{{ID: "in-seg", Clauses: []WClause{{Attr: mkRef("", ""), Op: "segmentMatch", Vals: []JV{jStr(s.Key)}}},
+			VR: WVR{V: ip(1), RO: WRollout{Vars: []WWV{}, By: mkRef("", "")}}}}
+	}
+	c.Flag = f
+	c.Tags = []string{"wide"}
+	return c
+}
+
 // manyKindsCase: a multi-kind context with many kinds (more than any fixed-size per-evaluation table
 // would hold), an unbounded segment or two for each kind, and a flag that walks through all of them.
 func (g *gen) manyKindsCase(id string) *EvalCase {
@@ -764,6 +891,9 @@ func genStream0(name string, r *rng, id string) *EvalCase {
 	case "manykinds":
 		g.p = profiles["bigseg"]
 		return g.manyKindsCase(id)
+	case "wide":
+		g.p = profiles["wellformed"]
+		return g.wideCase(id)
 	case "dateops":
 		g.p = profiles["wellformed"]
 		g.forceOps = []string{"before", "after"}
